@@ -28,7 +28,8 @@ func main() {
 		"present after RegisterModule. Generators: corpus of defect witnesses; bounded enumeration (all guarded scripts of length<=2 over a 19-action " +
 		"alphabet for module 0 x 6 companion pairs x 4 install kinds x histories of 4 requires over 3 names; quick = PRNG sample of that product, " +
 		"thorough = one exhaustive slice (all 81 histories) + 6 sampled histories for every other combination); random histories of 5..14 operations " +
-		"with scripts of length<=4. Non-trivial = at least two require calls and at least one loader invocation; distinct by Gallina term. " +
+		"with scripts of length<=4; hosts created with SkipOpenLibs that call OpenBase/OpenPackage/OpenString/OpenTable/RegisterModule/PreloadModule in a random " +
+		"order and then require every registered module, package, string, table and read their globals. Non-trivial = at least two require calls and at least one loader invocation; distinct by Gallina term. " +
 		"Scripts that reset package.loaded[self] to nil/false and then require again (unbounded recursion) are outside the domain and never generated."
 	r := lib.NewRand(a.Seed)
 	env := newEnv()
@@ -37,8 +38,10 @@ func main() {
 		replay(w, env, a.Replay)
 	} else {
 		corpus(w, env)
+		corpusInit(w, env)
 		genEnum(w, env, r, a.Tier)
 		genRandom(w, env, r, a.Tier)
+		genInit(w, env, r, a.Tier)
 	}
 	env.cleanup()
 	if err := w.Close(); err != nil {
